@@ -520,6 +520,14 @@ func flowsToCall(v ssa.Value, name string, depth int, seen map[ssa.Value]bool) b
 			if flowsToCall(x, name, depth-1, seen) {
 				return true
 			}
+			// the value is handed to a helper of the module: follow the matching parameter
+			if sc := x.Call.StaticCallee(); sc != nil && fnInModule(sc) && len(sc.Blocks) > 0 {
+				for i, a := range x.Call.Args {
+					if a == v && i < len(sc.Params) && flowsToCall(sc.Params[i], name, depth-1, seen) {
+						return true
+					}
+				}
+			}
 		case *ssa.MakeInterface:
 			if flowsToCall(x, name, depth, seen) {
 				return true
@@ -538,13 +546,27 @@ func flowsToCall(v ssa.Value, name string, depth int, seen map[ssa.Value]bool) b
 			if flowsToCall(x.(ssa.Value), name, depth, seen) {
 				return true
 			}
+		case *ssa.Index:
+			if flowsToCall(x, name, depth, seen) {
+				return true
+			}
 		}
 	}
-	// an Alloc used as the varargs array
+	// an Alloc used as the varargs array, or a local array that is ranged over
 	if al, ok := v.(*ssa.Alloc); ok {
 		for _, r := range *al.Referrers() {
 			if sl, ok := r.(*ssa.Slice); ok && flowsToCall(sl, name, depth, seen) {
 				return true
+			}
+			if ld, ok := r.(*ssa.UnOp); ok && ld.Op == token.MUL && flowsToCall(ld, name, depth, seen) {
+				return true // the array loaded as a whole (range over a local array)
+			}
+			if ia, ok := r.(*ssa.IndexAddr); ok && ia.Referrers() != nil {
+				for _, r2 := range *ia.Referrers() {
+					if ld, ok := r2.(*ssa.UnOp); ok && ld.Op == token.MUL && flowsToCall(ld, name, depth, seen) {
+						return true
+					}
+				}
 			}
 		}
 	}
